@@ -75,12 +75,40 @@ theorem log2_mul_pow (b s : Nat) (hb : b ≠ 0) : Nat.log2 (b * 2 ^ s) = Nat.log
   · rw [show Nat.log2 b + s + 1 = (Nat.log2 b + 1) + s by omega, Nat.pow_add]
     exact Nat.mul_lt_mul_of_pos_right h2 hP
 
+theorem halfUp_ge (B V h : Nat) (hh : 0 < h) (h1 : B ≤ V) (h2 : V < B + h) : V / (2 * h) ≤ halfUp B h := by
+  obtain ⟨t, r0, hB, hr0⟩ : ∃ t r0, B = h * t + r0 ∧ r0 < h := ⟨B / h, B % h, (Nat.div_add_mod B h).symm, Nat.mod_lt _ hh⟩
+  obtain ⟨q, hb, ht, hhb⟩ : ∃ q hb, t = 2 * q + hb ∧ hb < 2 := ⟨t / 2, t % 2, (Nat.div_add_mod t 2).symm, Nat.mod_lt _ (by decide)⟩
+  have hBt : B / h = t := by rw [hB, Nat.mul_add_div hh, Nat.div_eq_of_lt hr0]; rfl
+  have hcode : halfUp B h = q + hb := by
+    unfold halfUp; rw [hBt, ht]
+    have : (2 * q + hb) % 2 = hb := by omega
+    rw [this]; omega
+  rw [hcode]
+  have hlt : V < 2 * h * (q + hb + 1) := by
+    rcases Nat.lt_or_ge hb 1 with h0 | h0
+    · have hb0 : hb = 0 := by omega
+      subst hb0
+      have e0 : h * t = 2 * (h * q) := by rw [ht]; ring
+      have e1 : 2 * h * (q + 0 + 1) = 2 * (h * q) + 2 * h := by ring
+      rw [e1]; omega
+    · have hb1 : hb = 1 := by omega
+      subst hb1
+      have e0 : h * t = 2 * (h * q) + h := by rw [ht]; ring
+      have e1 : 2 * h * (q + 1 + 1) = 2 * (h * q) + 4 * h := by ring
+      rw [e1]; omega
+  have := (Nat.div_lt_iff_lt_mul (show 0 < 2 * h by omega)).2 (by rw [Nat.mul_comm]; exact hlt)
+  omega
+
+/-- the specification's pattern with truncation instead of rounding: a lower bound of both -/
+def floorRaw (V : Nat) : Nat :=
+  (Nat.log2 V + 1022) * 2 ^ 52 + (if Nat.log2 V ≤ 52 then V * 2 ^ (52 - Nat.log2 V) else V / 2 ^ (Nat.log2 V - 52))
+
 /-- **Patterns are within one.** `V` is the exact integer value; the code holds `b·2^s ≤ V`, exact
 when `b` has at most 53 bits, otherwise short by less than half a unit in the last place. -/
 theorem raw_close (b s V : Nat) (hb : 0 < b) (h1 : b * 2 ^ s ≤ V)
     (hsmall : Nat.log2 b ≤ 52 → V = b * 2 ^ s)
     (hbig : 52 < Nat.log2 b → V < b * 2 ^ s + 2 ^ (Nat.log2 b - 53) * 2 ^ s) :
-    specRaw V ≤ codeRaw b s + 1 ∧ codeRaw b s ≤ specRaw V + 1 := by
+    specRaw V ≤ codeRaw b s + 1 ∧ codeRaw b s ≤ specRaw V + 1 ∧ floorRaw V ≤ codeRaw b s := by
   have hb0 : b ≠ 0 := by omega
   have hP : 0 < 2 ^ s := Nat.pow_pos (by decide)
   obtain ⟨hlo, hhi⟩ := log2_bounds b hb0
@@ -100,6 +128,11 @@ theorem raw_close (b s V : Nat) (hb : 0 < b) (h1 : b * 2 ^ s ≤ V)
         have e : V = (b * 2 ^ (52 - Nat.log2 b)) * 2 ^ (Nat.log2 b + s - 52) := by
           rw [hV, Nat.mul_assoc, ← Nat.pow_add]; congr 2; omega
         rw [e]; exact rne_exact _ _ (Nat.pow_pos (by decide))
+    have hfl : floorRaw V ≤ specRaw V := by
+      unfold floorRaw specRaw
+      split
+      · exact Nat.le_refl _
+      · exact Nat.add_le_add_left (rne_ge _ _ (Nat.pow_pos (by decide))) _
     omega
   · have hbit' : 52 < Nat.log2 b := by omega
     have hV2 := hbig hbit'
@@ -139,7 +172,12 @@ theorem raw_close (b s V : Nat) (hb : 0 < b) (h1 : b * 2 ^ s ≤ V)
         rw [hL]; simp only [show ¬ (53 + j + s ≤ 52) by omega, if_false]
         rw [show 53 + j + s - 52 = 1 + j + s by omega, hpow 1, Nat.pow_one]
       obtain ⟨k1, k2⟩ := rne_vs_halfUp B V h hh h1 hV2
-      rw [hspec, hcode]; omega
+      have k3 := halfUp_ge B V h hh h1 hV2
+      have hfloor : floorRaw V = (53 + j + s + 1022) * 2 ^ 52 + V / (2 * h) := by
+        unfold floorRaw
+        rw [hL]; simp only [show ¬ (53 + j + s ≤ 52) by omega, if_false]
+        rw [show 53 + j + s - 52 = 1 + j + s by omega, hpow 1, Nat.pow_one]
+      rw [hspec, hcode, hfloor]; omega
     · -- the exact value is already in the next binade: both give its first pattern
       have hVb' : 2 ^ 54 * h ≤ V := by omega
       have hL : Nat.log2 V = 54 + j + s := by
@@ -173,7 +211,16 @@ theorem raw_close (b s V : Nat) (hb : 0 < b) (h1 : b * 2 ^ s ≤ V)
           omega
       have hhu : halfUp B h = 2 ^ 53 := by
         unfold halfUp; rw [hBh]; decide
-      rw [hspec, hcode, hhu]
+      have hfloor : floorRaw V = (54 + j + s + 1022) * 2 ^ 52 + 2 ^ 52 := by
+        unfold floorRaw
+        rw [hL]; simp only [show ¬ (54 + j + s ≤ 52) by omega, if_false]
+        rw [show 54 + j + s - 52 = 2 + j + s by omega, hpow 2, show (2 : Nat) ^ 2 = 4 by decide]
+        have e : V = 4 * h * 2 ^ 52 + d := by
+          rw [hd, show (2 : Nat) ^ 54 = 4 * 2 ^ 52 by decide]; ring
+        have e2 : V / (4 * h) = 2 ^ 52 := by
+          rw [e, Nat.mul_add_div (by omega), Nat.div_eq_of_lt (by omega), Nat.add_zero]
+        rw [e2]
+      rw [hspec, hcode, hhu, hfloor]
       have : (54 + j + s + 1022) * 2 ^ 52 = (53 + j + s + 1022) * 2 ^ 52 + 2 ^ 52 := by ring
       omega
 
